@@ -316,9 +316,38 @@ func runOne(c string) (out string) {
 	if again != first {
 		alias = " ALIASING result-changed-after-buffer-overwrite"
 	}
+	// history independence: the same buffer, rewritten in place with a sibling datagram (same layout, every digit
+	// replaced by another), goes through the same parser once more; it must parse to what a fresh parser makes
+	// of those bytes (nothing the parser remembers from the first datagram may point into the buffer)
+	if sib := sibling(dg); alias == "" && !bytes.Equal(sib, dg) {
+		hbuf := lexcase.Buffer(dg, len(dg)+extra)
+		est := dgrun.EstimatedTags(extra)
+		rh := dgrun.Run3(ns, ignoreHost, est, []dgrun.Dg{{IP: ip, Ts: ts, Msg: hbuf}},
+			func(*gostatsd.MetricMap, []*gostatsd.Event) { copy(hbuf, sib) }, []dgrun.Dg{{IP: ip, Ts: ts, Msg: hbuf}})
+		fresh := dgrun.Run3(ns, ignoreHost, est, []dgrun.Dg{{IP: ip, Ts: ts, Msg: append([]byte(nil), sib...)}}, nil, nil)
+		end := time.Now().Unix() + 1
+		if rh.Panic == "" && !rh.Hang && fresh.Panic == "" && !fresh.Hang {
+			a := renderEvents(rh.SecondEvents, before, end) + " || " + renderMap(rh.SecondMap, nil)
+			b := renderEvents(fresh.Events, before, end) + " || " + renderMap(fresh.Map, nil)
+			if a != b {
+				alias = " ALIASING second-datagram-in-the-same-buffer-parsed-differently"
+			}
+		}
+	}
 	// the second datagram went through the same parser and pool: its 3 metrics are in the counters
 	mrecv := int64(res.MetricsReceived) - 3
 	return fmt.Sprintf("OK bad=%d mrecv=%d erecv=%d%s ### %s%s", res.BadLines, mrecv, res.EventsReceived, first, strings.Join(alone, " ; "), alias)
+}
+
+// sibling replaces every decimal digit by another one (the layout, and so every offset and length, stays)
+func sibling(dg []byte) []byte {
+	out := append([]byte(nil), dg...)
+	for i, b := range out {
+		if b >= '0' && b <= '9' {
+			out[i] = '0' + (b-'0'+4)%10
+		}
+	}
+	return out
 }
 
 // rcvOne (child process, see rcv.go): does the case's datagram parse to the same thing when it comes
